@@ -122,12 +122,8 @@ def check(col: Collector, tier: str):
         ok = ok and len(td) == 1 and src(td[0]) == "_find_dir(self._template_dir_name)"
     col.add("C02.R1", wf.short, "templates-loaded-from-own-directory-per-call", ok,
             "the jinja Environment must be built in this call on _find_dir(self._template_dir_name)", wf.loc)
-    cp = ex.methods["_copy_template_file"]
-    p = [a.arg for a in cp.node.args.args]
-    s_ = src(cp.node).replace("\n", "").replace(" ", "")
-    ok = f"{p[1]}.get_template({p[3]}).stream({p[2]}).dump(str({p[4]}/{p[3]}))" in s_ and not [n for n in ast.walk(cp.node) if isinstance(n, ast.Subscript)]
-    col.add("C02.R1", cp.short, "renders-that-template-into-that-file", ok,
-            "must render env.get_template(file).stream(info) into final_dir/file - no template cache keyed by file name (r5, r7 and r21 share names)", cp.loc)
+    from sa.props._tr import check_copy_template
+    check_copy_template(col, "C02.R1", repo)
 
     # ------------------------------------------------------------ R2 template variables provided
     col.floor("C02.R2", 25)
@@ -274,11 +270,22 @@ def check(col: Collector, tier: str):
             f"scope_fill definitions {[src(d)[:50] for d in ds]}: a fill scope that follows the last scalar column emits uses of a loop variable before/outside its loop", f.loc)
     # ------------------------------------------------------------ R9 whole-word substitution
     check_substitution(col, repo, "C02.R9")
+    # ------------------------------------------------------------ R12 what was collected reaches the templates
+    from sa.props._tr import check_emission_pipeline
+    col.floor("C02.R12", 10)
+    check_emission_pipeline(col, "C02.R12", repo)
+    # ------------------------------------------------------------ R11 introduced identifiers are declared
+    from sa.props._tr import check_created_variables_declared
+    check_created_variables_declared(col, "C02.R11", repo)
     # ------------------------------------------------------------ R10 mechanisms shared with other properties
     from sa.props._tr import import_obligations
     import_obligations(col, "C02.R10", "c04", lambda o: o.detail in ("result-declared-before-the-blocks", "result-is-bool-variable"),
                        "a result variable declared after the test was translated lands in whatever block the test left open, while it is read outside")
     import_obligations(col, "C02.R10", "c14", lambda o: o.construct == "executor._ib_fetch",
                        "a dropped or de-duplicated injected line (a second `}` or #endif) leaves the generated file unbalanced")
+    import_obligations(col, "C02.R10", "c14", lambda o: o.construct == "template.atlas:link_libraries",
+                       "library names run together name a library that does not exist: the package no longer links what its code includes")
+    import_obligations(col, "C02.R10", "c18", lambda o: o.rule == "C18.R2" and o.detail == "non-finite-float-rejected",
+                       "inf and nan print as identifiers that nothing declares")
     import_obligations(col, "C02.R10", "c10", lambda o: o.rule == "C10.R3",
                        "a wrong deref count or pointer depth makes every use of the method's result ill-typed")
